@@ -1,15 +1,20 @@
 package c06
 
 import (
+	"errors"
 	"fmt"
+	"io"
 	"os"
 	"strings"
 	"sync"
+	"syscall"
 	"testing"
 
 	"github.com/buildbarn/bb-storage/pkg/blobstore/local"
 	"github.com/prometheus/client_golang/prometheus"
 	"github.com/prometheus/client_golang/prometheus/collectors"
+	"google.golang.org/grpc/codes"
+	"google.golang.org/grpc/status"
 	"pgregory.net/rapid"
 
 	"verif/harness/vstats"
@@ -102,9 +107,10 @@ func (g *locGen) note(ki, blk int, off, size int64) {
 	g.sizes[keyBlkOff{ki, bo}] = size
 }
 
-func property(t *rapid.T, rec *vstats.Recorder, backend, storageType string) {
-	c := rec.Begin()
-	cfg := config{backend: backend}
+// genSetup draws a configuration (without back end), the keys and the hash
+// seeds of the initially live blocks.
+func genSetup(t *rapid.T, c *vstats.Case) (config, []local.Key, []uint64) {
+	var cfg config
 	if rapid.IntRange(0, 3).Draw(t, "tableClass") == 0 {
 		cfg.size = rapid.SampledFrom(primes).Draw(t, "tableSizePrime")
 	} else {
@@ -124,13 +130,46 @@ func property(t *rapid.T, rec *vstats.Recorder, backend, storageType string) {
 		seeds[i] = rapid.Uint64().Draw(t, "seed")
 	}
 	c.Add(cfg.size, cfg.hashInit, int(cfg.getAttempts), cfg.putAttempts, nkeys, nblocks)
+	return cfg, keys, seeds
+}
 
-	h := newHarness(t, cfg, keys, seeds, storageType)
-	h.strictMetrics = true
-	h.auditEvery = cfg.size <= 16
-	g := &locGen{used: map[blkOff]struct{}{}, maxOff: map[int]int64{}, sizes: map[keyBlkOff]int64{}}
+// Error values a failing device call returns. ErrLocationRecordInvalid is
+// not among them: it is the record array's own verdict about a record it has
+// read, never the outcome of a device call.
+var deviceErrors = []error{
+	syscall.EIO,
+	io.ErrUnexpectedEOF,
+	status.Error(codes.Internal, "harness: injected device fault"),
+	status.Error(codes.Unavailable, "harness: injected device fault"),
+	errors.New("harness: injected device fault"),
+}
 
-	nops := rapid.IntRange(1, 60).Draw(t, "operations")
+// genFault draws the device fault of one operation, or none. Call numbers
+// are small: a Put of the unchanged code issues one read per iteration and
+// at most one write per iteration.
+func genFault(t *rapid.T, c *vstats.Case, percent int, allowWrite bool) *faultPlan {
+	if rapid.IntRange(0, 99).Draw(t, "faultChance") >= percent {
+		return nil
+	}
+	f := &faultPlan{}
+	if allowWrite {
+		f.write = rapid.IntRange(0, 3).Draw(t, "faultOnWrite") == 0
+	}
+	f.n = rapid.SampledFrom([]int{1, 1, 1, 2, 2, 3, 4, 6}).Draw(t, "faultCall")
+	ei := rapid.IntRange(0, len(deviceErrors)-1).Draw(t, "faultError")
+	f.err = deviceErrors[ei]
+	c.Add("fault", f.write, f.n, ei)
+	return f
+}
+
+// genOps draws nops operations and applies every one of them to ALL
+// harnesses in hs (which share configuration, keys and block history, so that
+// their live windows agree; hs[0] is consulted for it). Device faults are
+// drawn only if faults is set and then apply to hs[0], which must be block
+// device backed.
+func genOps(t *rapid.T, c *vstats.Case, hs []*harness, g *locGen, nops int, faults bool) {
+	h := hs[0]
+	nkeys := len(h.keys)
 	for i := 0; i < nops; i++ {
 		kind := rapid.IntRange(0, 99).Draw(t, "op")
 		switch {
@@ -161,11 +200,23 @@ func property(t *rapid.T, rec *vstats.Recorder, backend, storageType string) {
 			}
 			g.note(ki, blk, off, size)
 			c.Add("put", ki, blk, off, size)
-			h.put(ki, local.Location{BlockIndex: blk - h.blocks.released, OffsetBytes: off, SizeBytes: size})
+			var f *faultPlan
+			if faults {
+				f = genFault(t, c, 30, true)
+			}
+			for _, hx := range hs {
+				hx.putF(ki, local.Location{BlockIndex: blk - hx.blocks.released, OffsetBytes: off, SizeBytes: size}, f)
+			}
 		case kind < 72:
 			ki := rapid.IntRange(0, nkeys-1).Draw(t, "key")
 			c.Add("get", ki)
-			h.get(ki)
+			var f *faultPlan
+			if faults {
+				f = genFault(t, c, 60, false)
+			}
+			for _, hx := range hs {
+				hx.getF(ki, f)
+			}
 		default:
 			release := kind < 87
 			if h.blocks.live() < 2 {
@@ -175,14 +226,22 @@ func property(t *rapid.T, rec *vstats.Recorder, backend, storageType string) {
 			}
 			if release {
 				c.Add("release")
-				h.release()
+				for _, hx := range hs {
+					hx.release()
+				}
 			} else {
 				seed := rapid.Uint64().Draw(t, "seed")
 				c.Add("alloc", seed)
-				h.alloc(seed)
+				for _, hx := range hs {
+					hx.alloc(seed)
+				}
 			}
 		}
 	}
+}
+
+// finishHarness runs the final audit and the metrics cross-check.
+func finishHarness(t *rapid.T, rec *vstats.Recorder, h *harness) {
 	h.audit()
 	if !h.mr.fast {
 		noteSlowMetrics.Do(func() {
@@ -194,8 +253,61 @@ func property(t *rapid.T, rec *vstats.Recorder, backend, storageType string) {
 			t.Fatalf("harness: collectors read directly (%+v) disagree with prometheus.DefaultGatherer (%+v)", a, b)
 		}
 	}
+}
+
+func renderHist(hist []opRec) string {
+	var sb strings.Builder
+	for i, o := range hist {
+		if i > 0 {
+			sb.WriteString(" ")
+		}
+		sb.WriteString(o.String())
+	}
+	return sb.String()
+}
+
+func property(t *rapid.T, rec *vstats.Recorder, backend, storageType string, faults bool) {
+	c := rec.Begin()
+	cfg, keys, seeds := genSetup(t, c)
+	cfg.backend = backend
+	nkeys, nblocks := len(keys), len(seeds)
+
+	h := newHarness(t, cfg, keys, seeds, storageType)
+	h.strictMetrics = true
+	h.auditEvery = cfg.size <= 16
+	g := &locGen{used: map[blkOff]struct{}{}, maxOff: map[int]int64{}, sizes: map[keyBlkOff]int64{}}
+
+	nops := rapid.IntRange(1, 60).Draw(t, "operations")
+	genOps(t, c, []*harness{h}, g, nops, faults)
+	finishHarness(t, rec, h)
 
 	s := &h.st
+	classes(c, rec, s, cfg)
+	if faults {
+		c.ClassIf(s.faultPutRead > 0, "fault_put_read_failed")
+		c.ClassIf(s.faultPutWrite > 0, "fault_put_write_failed")
+		c.ClassIf(s.faultPutNotReached > 0, "fault_put_not_reached")
+		c.ClassIf(s.faultPutSwallowed > 0, "fault_put_returned_nil_despite_failed_device_call")
+		c.ClassIf(s.faultPutReadOnLiveOtherKey > 0, "fault_put_read_failed_on_live_entry_of_other_key")
+		c.ClassIf(s.faultPutFailedKeptPrevious > 0, "fault_put_failed_key_kept_previous_result")
+		c.ClassIf(s.faultPutFailedStoredNew > 0, "fault_put_failed_key_stored_nevertheless")
+		c.ClassIf(s.faultPutFailedLostOther > 0, "fault_put_failed_and_lost_one_other_key_unreported")
+		c.ClassIf(s.faultGetError > 0, "fault_get_answered_error")
+		c.ClassIf(s.faultGetAnswered > 0, "fault_get_answered_result")
+		c.ClassIf(s.faultGetNotReached > 0, "fault_get_not_reached")
+		rec.Count("sum_faults_reached", int64(s.faultPutRead+s.faultPutWrite+s.faultGetError+s.faultGetAnswered))
+	}
+	if s.nonTrivial() {
+		c.NonTrivial()
+	}
+	c.Sample(func() string {
+		return fmt.Sprintf("%s keys=%d blocks=%d: %s", cfg, nkeys, nblocks, renderHist(h.hist))
+	})
+	c.End()
+}
+
+// classes records the generator-health classes of one sequential history.
+func classes(c *vstats.Case, rec *vstats.Recorder, s *caseStats, cfg config) {
 	c.ClassIf(s.displacingPuts > 0, "put_displaced_a_record")
 	c.ClassIf(s.discards > 0, "discard_reported")
 	c.ClassIf(s.tooManyAttempts > 0, "discard_too_many_attempts")
@@ -232,18 +344,82 @@ func property(t *rapid.T, rec *vstats.Recorder, backend, storageType string) {
 	rec.Count("sum_discards", int64(s.discards))
 	rec.Count("sum_displaced_records", int64(s.displacedRecords))
 	rec.Count("sum_early_stops", int64(s.earlyStops))
-	if s.nonTrivial() {
+}
+
+// concurrentProperty: a generated sequential history (same generator, applied
+// in lockstep to one index per back end, fully checked), then 4..16
+// goroutines doing nothing but lookups, first against the in-memory backed,
+// then against the block device backed index. See harness.concurrentLookups.
+func concurrentProperty(t *rapid.T, rec *vstats.Recorder, storagePrefix string) {
+	c := rec.Begin()
+	cfg, keys, seeds := genSetup(t, c)
+	nkeys, nblocks := len(keys), len(seeds)
+	var hs []*harness
+	for _, backend := range []string{"mem", "blockdev"} {
+		bc := cfg
+		bc.backend = backend
+		h := newHarness(t, bc, keys, seeds, storagePrefix+backend)
+		// the two indices share no series, but the reader of either is
+		// only refreshed by its own Puts
+		h.strictMetrics = true
+		hs = append(hs, h)
+	}
+	g := &locGen{used: map[blkOff]struct{}{}, maxOff: map[int]int64{}, sizes: map[keyBlkOff]int64{}}
+	nops := rapid.IntRange(1, 60).Draw(t, "operations")
+	genOps(t, c, hs, g, nops, false)
+
+	ng := rapid.IntRange(4, 16).Draw(t, "goroutines")
+	patterns := make([][]int, ng)
+	repeats := make([]int, ng)
+	for i := range patterns {
+		patterns[i] = rapid.SliceOfN(rapid.IntRange(0, nkeys-1), 1, 24).Draw(t, "lookupKeys")
+		repeats[i] = rapid.IntRange(8, 48).Draw(t, "repeats")
+		c.Add("goroutine", repeats[i])
+		for _, ki := range patterns[i] {
+			c.Add(ki)
+		}
+	}
+	lookups := 0
+	for _, h := range hs {
+		lookups += h.concurrentLookups(patterns, repeats)
+		finishHarness(t, rec, h)
+	}
+
+	// distinct found answers that goroutines other than one ask for
+	found := map[res]struct{}{}
+	askers := map[int]map[int]struct{}{}
+	for gi, p := range patterns {
+		for _, ki := range p {
+			if hs[1].cur[ki].ok {
+				found[hs[1].cur[ki]] = struct{}{}
+				if askers[ki] == nil {
+					askers[ki] = map[int]struct{}{}
+				}
+				askers[ki][gi] = struct{}{}
+			}
+		}
+	}
+	differ := false
+	for ki := range keys {
+		if hs[0].cur[ki] != hs[1].cur[ki] {
+			differ = true
+		}
+	}
+	s := &hs[1].st
+	classes(c, rec, s, cfg)
+	c.ClassIf(len(found) >= 2, "conc_two_or_more_distinct_entries_looked_up")
+	c.ClassIf(len(found) == 0, "conc_only_absent_keys_looked_up")
+	c.ClassIf(ng >= 8, "conc_goroutines_ge_8")
+	c.ClassIf(differ, "conc_back_ends_answer_differently")
+	rec.Count("conc_lookups", int64(lookups))
+	rec.Count("conc_goroutines", int64(2*ng))
+	// non-trivial: the goroutines look up at least two distinct present
+	// entries (so that simultaneous lookups touch different records)
+	if len(found) >= 2 {
 		c.NonTrivial()
 	}
 	c.Sample(func() string {
-		var sb strings.Builder
-		for i, o := range h.hist {
-			if i > 0 {
-				sb.WriteString(" ")
-			}
-			sb.WriteString(o.String())
-		}
-		return fmt.Sprintf("%s keys=%d blocks=%d: %s", cfg, nkeys, nblocks, sb.String())
+		return fmt.Sprintf("%s keys=%d blocks=%d: %s || %d goroutines, lookups %v x %v", cfg, nkeys, nblocks, renderHist(hs[1].hist), ng, patterns, repeats)
 	})
 	c.End()
 }
@@ -252,7 +428,7 @@ var recMem = vstats.New("TestC06InMemory")
 
 // TestC06InMemory: generated sequences over NewInMemoryLocationRecordArray.
 func TestC06InMemory(t *testing.T) {
-	rapid.Check(t, func(t *rapid.T) { property(t, recMem, "mem", "c06-rapid-mem") })
+	rapid.Check(t, func(t *rapid.T) { property(t, recMem, "mem", "c06-rapid-mem", false) })
 }
 
 var recDev = vstats.New("TestC06BlockDevice")
@@ -260,5 +436,30 @@ var recDev = vstats.New("TestC06BlockDevice")
 // TestC06BlockDevice: generated sequences over
 // NewBlockDeviceBackedLocationRecordArray on a byte-slice block device.
 func TestC06BlockDevice(t *testing.T) {
-	rapid.Check(t, func(t *rapid.T) { property(t, recDev, "blockdev", "c06-rapid-blockdev") })
+	rapid.Check(t, func(t *rapid.T) { property(t, recDev, "blockdev", "c06-rapid-blockdev", false) })
+}
+
+var recFault = vstats.New("TestC06BlockDeviceFaults")
+
+// TestC06BlockDeviceFaults: as TestC06BlockDevice, and about every third Put
+// and every second explicit Get runs with ONE failing device call (the n-th
+// ReadAt or WriteAt of that call, generated error value). See harness.putF
+// and harness.getF for what is demanded then.
+func TestC06BlockDeviceFaults(t *testing.T) {
+	rapid.Check(t, func(t *rapid.T) { property(t, recFault, "blockdev", "c06-rapid-blockdev-faults", true) })
+}
+
+var recConc = vstats.New("TestC06ConcurrentLookups")
+
+// TestC06ConcurrentLookups: see concurrentProperty.
+func TestC06ConcurrentLookups(t *testing.T) {
+	rapid.Check(t, func(t *rapid.T) { concurrentProperty(t, recConc, "c06-conc-") })
+}
+
+var recConcRace = vstats.New("TestC06ConcurrentLookupsRace")
+
+// TestC06ConcurrentLookupsRace: the same property; the driver runs this unit
+// with a binary built with -race (a reported data race is a violation).
+func TestC06ConcurrentLookupsRace(t *testing.T) {
+	rapid.Check(t, func(t *rapid.T) { concurrentProperty(t, recConcRace, "c06-concrace-") })
 }
